@@ -19,7 +19,7 @@ RULE = ("(add) Images.add / Rpms.add with the architecture swept over the whole 
         "(canonical and legal non-canonical key spellings): every source RPM listed there must be filed as category 'source' "
         "under its canonical NEVRA in each binary arch that lists packages built from it. Expectations are computed from the "
         "description. Non-trivial = document has a variant with 'src' and >= 2 binary arches / add with a refused arch; "
-        "distinct = SHA-1 of the case.")
+        "distinct = SHA-1 of the case. One parsed document feeds two readers and must stay unmodified; identity-equal source twins with equal checksums are generated.")
 ASSUMPTIONS = ["a variant with only a 'src' entry is outside the claim and not generated"]
 FLOORS = {"images-doc": 100, "rpms-doc": 100, "add-arch-sweep": 60}
 
